@@ -504,7 +504,7 @@ def step_bwd(s, op, checks, case):
             raise Violation("switch_backward_is_branch0", "backward request does not restore the trace of a program that executes a switch branch != 0: " + v.message, case)
         raise
     except NotImplementedError as e:
-        if info["kind"] == "regen" and "scan" in kinds:
+        if info["kind"] in ("regen", "index") and "scan" in kinds:
             raise Violation("scan_regenerate_backward", f"backward request of Regenerate through scan cannot be applied: NotImplementedError {e}", case)
         raise
     except Exception as e:
@@ -664,8 +664,8 @@ def step_assess_agree(s, case):
     try:
         sc, rv = s.gf.assess(tr.get_choices(), tr.get_args())
     except Exception as e:
-        if type(e).__name__ == "MissingAddress" and gfi.has_empty_site(s.node, s.run, include_branches=True):
-            raise Violation("assess_empty_sample", f"assess raised MissingAddress{e.args} on the trace's own choices (a call site without active choices)", case)
+        if gfi.is_empty_sample_rejection(e, s.node, s.run):
+            raise Violation("assess_empty_sample", f"assess raised {type(e).__name__}{e.args} on the trace's own choices (a call site without active choices)", case)
         raise
     atol = gfi.score_tol(s.run)
     if not gfi.close(gfi.fval(sc), gfi.fval(tr.get_score()), atol):
